@@ -182,7 +182,8 @@ def w1_concurrent_calls(col, rng, cidx, jobref):
         if rng.random() < 0.3:
             nd["args"].append(["p", "y"])
     # several call sites sharing ONE activation flag (a DAG argument whose truthiness differs between the concurrent calls)
-    indexed = {a[1] for m in sp["nodes"] for a in list(m["args"]) + list(m["kwargs"].values()) if a[0] == "n" and a[2]}
+    indexed = {a[1] for m in sp["nodes"] for a in list(m["args"]) + list(m["kwargs"].values()) + ([m["active"]] if m.get("active") else [])
+               if a[0] == "n" and a[2]}
     for i_, nd in enumerate(sp["nodes"]):
         if nd["active"] is None and i_ not in indexed and rng.random() < 0.3:
             nd["active"] = ["p", "x"]
